@@ -9,6 +9,9 @@ CHECKS = {
  "C01": ("proptest-generated application trees and requests; differential against a reference segment matcher over the flattened route table (four readings of the preference rule), plus metamorphic order-independence (same tree built in shuffled registration order)",
          "Exploration: tens of thousands of generated route trees (colliding static names, params, mounts, split method sets) each probed by up to 25 adversarial requests, built twice in different registration orders through the real public API and dispatched through the real parser, router and serializer. Right level: the property quantifies over configurations × inputs with a cheap exact oracle.",
          "the reference matcher and its four readings of 'preferred at each position'; refusals at build time are not applications; only rt_tokio; ≤2 params per route (documented limit)", "DESIGN.md §7 C01"),
+ "C03": ("proptest-generated histories of public Response operations (stateful: op vector + interpreter) executed in a real handler; model-based oracle (history → expected header map/body) + independent HTTP response parser + capacity monitor (hook H3, declared-size accessor)",
+         "Exploration of operation histories (0–40 operations, 10 % of 250–400) × all statuses × GET/HEAD through the real router and serializer. Right level: the defects of this property live in histories (remove→set, >255 sets) that examples do not reach; a model of the header map is cheap and exact.",
+         "values without CR/LF/NUL; framing headers never set by hand; 1xx/304 only self-consistency; frozen clock via hook H4; H3 turns the silent overrun into a panic (with hooks off it is undefined behaviour)", "DESIGN.md §7 C03"),
  "C20": ("exhaustive enumeration of days/seconds/small integers + proptest-generated timestamps and 64-bit integers against an independent civil-from-days / std formatting oracle",
          "Exploration; the sub-space 'first second of every day up to 9999-12-31, every second of day on ~35 days, every n < 10^6' is enumerated completely, the remaining inputs are sampled. Right level: the functions are pure, cheap, and have a trivially independent oracle, so near-total input coverage is affordable.",
          "std formatting and the oracle's civil-from-days (cross-checked against chrono and httpdate each run) are trusted", "DESIGN.md §7 C20"),
